@@ -164,6 +164,14 @@ def handle (line : String) : Except String String := do
     let i := defaultQualifier asciiFns (← b "ts") st SqlglotModel.Generated.C10.defaultQualifierTagFirst
       ⟨← (← j.getObjVal? "name").getStr?, ← b "quoted"⟩
     return i.name ++ "\t" ++ toString i.quoted
+  | "normmemo" =>
+    let st ← jStrat (← j.getObjVal? "st")
+    let ts ← (← j.getObjVal? "ts").getBool?
+    let ks ← (← (← j.getObjVal? "calls").getArr?).toList.mapM fun c => do
+      let a ← c.getArr?
+      if h : a.size = 3 then pure (NKey.mk (← a[0].getStr?) (← a[1].getBool?) (← a[2].getBool?)) else throw "call"
+    let hasRole := SqlglotModel.Generated.C10.schemaNameMemoKey.contains "is_table"
+    return "\t".intercalate (normMemoRun hasRole asciiFns ts st [] ks)
   | "ctes" =>
     let jEnv (x : Json) : Except String CteEnv := do
       (← x.getArr?).toList.mapM fun p => do
